@@ -29,6 +29,14 @@ IFACES = [
                                 {"typ": "str", "def": "str", "doc": "pk"}], "ret": {"typ": "int", "def": "absent", "doc": "plain"}},
     {"doc": "one", "params": [{"typ": "Lit3u", "def": "str", "doc": "plain"}, {"typ": "float", "def": "float_neg", "doc": "dot"}],
      "ret": {"typ": "none", "def": "absent", "doc": "absent"}},
+    # Determinism!CallTable: plain columns of type names the emitters' lookup tables do not hold ...
+    {"doc": "one", "params": [{"typ": "Named", "def": "absent", "doc": "plain"}, {"typ": "Bytes", "def": "absent", "doc": "plain"},
+                              {"typ": "Dotted", "def": "absent", "doc": "plain"}], "ret": {"typ": "none", "def": "absent", "doc": "absent"}},
+    # ... and, as a SEPARATE input (so that call order decides which comes first), columns that consult the tables by membership of those names
+    {"doc": "one", "params": [{"typ": "Union_int_Named", "def": "absent", "doc": "plain"}, {"typ": "Union_Named_int", "def": "absent", "doc": "plain"},
+                              {"typ": "List_Named", "def": "absent", "doc": "plain"}, {"typ": "Opt_Named", "def": "absent", "doc": "plain"},
+                              {"typ": "Union_str_Bytes", "def": "absent", "doc": "plain"}],
+     "ret": {"typ": "none", "def": "absent", "doc": "absent"}},
 ]
 EMIT = ["class", "pydantic", "function", "argparse", "json_schema", "sqlalchemy", "sqlalchemy_table", "sqlalchemy_hybrid",
         "docstring:rest", "docstring:google", "docstring:numpydoc"]
@@ -60,7 +68,7 @@ def check(run, replay=None):
 def _check(run, replay, work):
     quick = run.tier == "quick"
     run.rule = ("observation = (api, input) executed in a fresh interpreter with a given PYTHONHASHSEED and call order; inputs: "
-                "TLC-enumerated partially documented functions/classes, emitters+inferred imports on 4 interfaces x 11 formats, "
+                "TLC-enumerated partially documented functions/classes, emitters+inferred imports on 6 interfaces x 11 formats (two of them with type names that the emitters' lookup tables do not hold, plain and inside Union / List / Optional), "
                 "mock docstrings, 4 source objects x 8 targets converted from one object kept for the life of the process and from fresh copies; distinct = distinct (api, input); all observations of one (api, input) must hash equal")
     # ---------------- TLC ----------------
     n = 3 if quick else 4
@@ -76,6 +84,10 @@ def _check(run, replay, work):
     rp = run.tlc("Determinism", "MC_Determinism_aliased.cfg", expect_ok=False, timeout=600)
     if rp.violated != "Functional":
         raise MachineryError("Determinism.tla does not reject an IR that shares the body with the caller's object (vacuous Functional?)")
+    run.tlc("Determinism", "MC_Determinism_table.cfg", timeout=600)
+    rp = run.tlc("Determinism", "MC_Determinism_registry.cfg", expect_ok=False, timeout=600)
+    if rp.violated != "Functional":
+        raise MachineryError("Determinism.tla does not reject a lookup table that grows with the calls (vacuous Functional?)")
     run.extra["pinned_merge_rejected_by_tlc"] = True
     # the inputs: enumerate with a dump run (single worker so that lines stay intact)
     spec_inputs = _enumerate_inputs(run, n)
@@ -135,10 +147,13 @@ def _check(run, replay, work):
     events = []
     by_key = {}
     heads = {}
+    grown = set()
     for k, (s, o, out, err) in enumerate(results):
         if out is None:
             raise MachineryError("determinism worker failed (seed {}, order {}): {}".format(s, o, err))
-        for j, e in enumerate(out):
+        for e in [e for e in out if e["api"] == "__state__"]:
+            grown.update(e["changed"])
+        for j, e in enumerate(e for e in out if e["api"] != "__state__"):
             proc = "seed={}/order={}/proc={}/call={}".format(s, o, k, j)
             events.append({"api": e["api"], "input": e["input"], "sha": e["sha"], "proc": proc})
             by_key.setdefault((e["api"], e["input"]), {}).setdefault(e["sha"], []).append(proc)
@@ -154,6 +169,10 @@ def _check(run, replay, work):
         else:
             run.held((api, inp), n=sum(len(v) for v in shas.values()))
     run.sample({"api": events[0]["api"], "input": events[0]["input"], "sha": events[0]["sha"], "proc": events[0]["proc"]})
+    # diagnostic (Determinism!TableReadOnly): a process-wide table of the package that is not what it was before the calls
+    for name in sorted(grown):
+        run.model_drift("Determinism: the module-level table {} changed during the calls (as built, Registers = FALSE: tables are only read)".format(name))
+    run.extra["module_tables_changed"] = sorted(grown)
     run.extra["observations"] = len(events)
     run.extra["processes"] = len(tasks)
     # model vs real on the modelled API (diagnostic): the order of parameter names
